@@ -52,6 +52,18 @@ CHECKS['C05'] = dict(
          'restarts, each escape code decodes to its marker, invalid escape is an error. Resynchronisation over whole streams is '
          'not decided.',
     note='Trusted: clang lowering, irdump, absint/lin, contracts in checks/c05.py; igris_strmcrc8 summarised (its value is C17).')
+CHECKS['C01'] = dict(
+    category='other', design_ref='DESIGN.md 5/C01',
+    technique='shape analysis: symbolic-heap abstract interpretation of the IR over all footprint configurations, compared with a sequence-rewrite model; IR traversal rules',
+    text='Every loop-free mutator of the C dlist, C++ dlist_node/dlist_base/dlist<T>, slist and hlist is interpreted on every '
+         'aliasing/shape configuration of its arguments and their neighbours (rings with opaque gaps for arbitrarily many other '
+         'nodes); the resulting pointer graph must equal the one induced by an independent insert/remove/move/splice model, '
+         'removed nodes must be self-linked (or poisoned for dlist_del). Traversal macros and iterators must step through '
+         'next/prev and stop at the head. Whole-history equivalence with a reference list follows by the frame argument '
+         '(not mechanised).',
+    note='Trusted: clang lowering, irdump, absint, the sequence model in checks/shape.py + checks/c01.py. Excluded by '
+         'precondition: a node used as its own anchor; dlist_add_* on an already linked node. Loops (~dlist_base, clear) on '
+         'explicit rings up to 3 elements.')
 NA_REASON = 'check not built yet (work in progress; see DESIGN.md section 9)'
 
 m = {"version": 1,
